@@ -1039,6 +1039,49 @@ def r_thresholds(ctx):
                                       'thresholds are propagated along the inbound arcs of the node whose theta is used', 'theta propagation does not iterate the inbound arcs of the child whose theta it uses')
                 ctx.check(form is not None, 'R09.5', '%s/theta-write/%s' % (tag, form or 'unknown'), body, body.loc(*pt), 'theta write of an allowed form: %s' % form,
                           'a write to Node.theta is not of an allowed form: theta := %s' % M.show(v)[:300])
+        # propagation is not optional either: every node of the bottom-up traversal that holds a threshold hands it to ALL its parents; an
+        # iteration may end without walking the node's inbound arcs only for a deleted node, a node without threshold, or the end of its
+        # inbound list (closed list of reasons: an extra `continue` — "inexact nodes are never cached" — also stops the thresholds of
+        # rub- / cache-pruned nodes below from reaching their exact ancestors)
+        prop_pts = []
+        for body in unit:
+            for (pt, d, v, s_) in writes(body):
+                if node_field(d, 'theta') is not None and isinstance(v, tuple) and v[0] == 'aggr' and v[2] == 'Some' and isinstance(v[3][0][1], tuple) and v[3][0][1][0] == 'min' \
+                        and M.contains(v, lambda x: M.is_field(x, 'cost', 'Edge')):
+                    if body is b:
+                        prop_pts.append(pt)
+                    else:
+                        prop_pts += [b.term_point(bb) for (bb, t) in b.calls_to('call_mut', 'call', 'call_once') if any(
+                            isinstance(x, tuple) and x and x[0] == 'closure' and x[1] == body.name for x in [b.origin.operand(a_, b.term_point(bb)) for a_ in t['args']])]
+        node_nexts = []
+        for (bb, t) in b.calls_to('Iterator::next'):
+            ct_ = b.origin.call(t, b.term_point(bb))
+            it_ = M.simplify_field(M.simplify_variant(ct_, 'Some'), '0', None)
+            # the loop whose item is the node being finalised: its flags are tested for `deleted`
+            if any(M.is_call(a_[1], 'is_deleted') and M.contains(a_[1], lambda x: x == it_) for bbk in b.live_blocks() if b.term(bbk)['k'] == 'switch'
+                   for (tb, lab) in b.succ(bbk) for a_ in M.lit_atoms(M.edge_literal(b, bbk, lab)) if a_[0] in ('T', 'F') and isinstance(a_[1], tuple)):
+                node_nexts.append((bb, ct_))
+        if ctx.floor('R09.5', tag + '/propagation-site', b, len(prop_pts), 1, 'threshold propagation to the parents') and ctx.floor('R09.5', tag + '/node-loop', b, len(node_nexts), 1, 'bottom-up loop over the nodes'):
+            # nested loops (layers, then nodes): the node loop is the innermost one — its item term contains the outer one's
+            node_nexts = [x for x in node_nexts if not any(y is not x and M.contains(y[1], lambda z: z == x[1]) for y in node_nexts)] or node_nexts
+            (nbb_, nct_) = node_nexts[0]
+            nxp_ = b.term_point(nbb_)
+            some_ = [(tb, 0) for bbk in b.live_blocks() if b.term(bbk)['k'] == 'switch' for (tb, lab) in b.succ(bbk)
+                     if (lambda lit: lit and lit[0] == 'in' and lit[1] == nct_ and lit[2] == frozenset(['Some']))(M.edge_literal(b, bbk, lab))]
+            def excused(atoms, lit):
+                for a_ in atoms:
+                    if a_[0] == 'T' and M.is_call(a_[1], 'is_deleted'):
+                        return True
+                    if opt_is(a_, lambda x: node_field(x, 'theta') is not None, 'None'):
+                        return True
+                    if a_[0] == 'in' and 'Nil' in a_[2] and 'Cons' not in a_[2]:
+                        return True
+                return False
+            cut_ = _cut_edges(b, excused)
+            r_ = b.reach(some_, cut_edges=cut_, avoid=prop_pts)
+            ctx.check(bool(some_) and nxp_ not in r_ and not any(p_ in r_ for p_ in ret_points(b)), 'R09.5', tag + '/propagation-mandatory', b, b.loc(nbb_),
+                      'every node that is not deleted and holds a threshold propagates it along its inbound arcs (no other reason ends an iteration early)',
+                      'an iteration of the bottom-up threshold loop can end without propagating the node\'s threshold to its parents for a reason other than "deleted" / "no threshold": thresholds of pruned nodes below never reach their ancestors, which are then cached with thresholds that are too high')
         # the own-threshold cases are not optional: on the rough-bound edge (value_top + rub <= best_known) and for a cut-set node, a theta is
         # written before the node is handed to the cache / the next node is taken (a node left with the theta inherited from SOME of its
         # children would be cached with a threshold that ignores the other routes below it)
